@@ -142,6 +142,9 @@ func genRegistrySpec(seed uint64, tier string) *spec.RunSpec {
 	}
 	var rl []spec.ROp
 	n := r.Intn(5)
+	if r.Bool(0.5) {
+		n = 2 + r.Intn(6) // reloads racing with many discoveries
+	}
 	for k := 0; k < n; k++ {
 		if r.Bool(0.2) {
 			rl = append(rl, spec.ROp{Op: "mandatory", On: r.Bool(0.5)})
@@ -159,7 +162,7 @@ func genRegistrySpec(seed uint64, tier string) *spec.RunSpec {
 func init() {
 	register(&propDef{
 		id: "C07", level: "exploration", quickRuns: 240, thoroughRuns: 6000, wallPerRun: 3 * time.Minute,
-		rule:        "serveruser.Registry under a cooperative scheduler: 1-3 discovery actors and a reload actor run one at a time; at every yield site inside Discover / SetUsers / cache recording (hook H2) and between operations the next actor is chosen from the seed, so interleavings are exact. Inputs: user universes of 1-40 users incl. re-keyed users (same name, new password) and users configured with another user's hashed credential; 1-4 user-set versions; first segments built by the reference codec for (authenticating credential, hinted name) incl. keys nobody has, hints naming other real users, hints naming nobody, random hints; 1-6 source addresses incl. addresses searched to collide in one source-cache bucket; hint-mandatory on/off and toggled; cache ageing by virtual sleeps across the 10-minute life; both requireCurrent modes; recording on/off. Oracle: porcupine linearizability of the recorded history (event-sequence stamps, <= 40 operations, 30 s cap, Unknown never reported) against a reference decision that ignores caches and sources: a segment is accepted iff a user of the generation current at its linearization point holds the authenticating credential (the hinted one wins; with mandatory hints only the hinted one counts). End-to-end attribution (UserContext.UserName of accepted sessions = dialling user) is asserted in every C01/C02-style run as well.",
+		rule:        "serveruser.Registry under a cooperative scheduler: 1-3 discovery actors and a reload actor run one at a time; at every yield site inside Discover / SetUsers / cache recording (hook H2) and between operations the next actor is chosen from the seed, so interleavings are exact. Inputs: user universes of 1-40 users incl. re-keyed users (same name, new password) and users configured with another user's hashed credential; 1-4 user-set versions; first segments built by the reference codec for (authenticating credential, hinted name) incl. keys nobody has, hints naming other real users, hints naming nobody, random hints; 1-6 source addresses incl. addresses searched to collide in one source-cache bucket; hint-mandatory on/off and toggled; cache ageing by virtual sleeps across the 10-minute life; both requireCurrent modes; recording on/off. Oracle: porcupine linearizability of the recorded history (event-sequence stamps, <= 40 operations, 30 s cap, Unknown never reported) against a reference decision that ignores caches and sources: a segment is accepted iff a user of the generation current at its linearization point holds the authenticating credential (the hinted one wins; with mandatory hints only the hinted one counts). End-to-end attribution (UserContext.UserName of accepted sessions = dialling user) is asserted in every C01/C02-style run as well. 35 % of the runs add two users with distinct credentials whose names collide on the 4-byte hint under the nonce of one segment (birthday search at generation time) and an actor that authenticates the first, then presents the second from the same source; the reference decision compares hints at byte level.",
 		assumptions: []string{"the reference decision is computed with the reference codec's key derivation, not with mieru's", "actors are real goroutines that run strictly one at a time (parked at yield sites), so the history order is total"},
 		components:  map[string]string{"pkg/protocol/serveruser (Registry, source cache), pkg/cipher": "real code", "scheduler": "cooperative scheduler of the harness on hook H2 yield sites", "clock": "testing/synctest bubble", "first segments": "verifsim/refproto"},
 		gen: func(master uint64, idx int, tier string) *spec.RunSpec {
